@@ -251,6 +251,8 @@ func (qz *quantizer) prov(v ssa.Value, d int) string {
 		return t.Op.String() + qz.prov(t.X, d+1)
 	case *ssa.Lookup:
 		return qz.prov(t.X, d+1) + "[" + qz.prov(t.Index, d+1) + "]"
+	case *ssa.Index:
+		return qz.prov(t.X, d+1) + "[" + qz.prov(t.Index, d+1) + "]"
 	case *ssa.Alloc:
 		// a copy of a whole struct: *local = *src
 		for _, r := range *t.Referrers() {
